@@ -107,3 +107,11 @@ META["C10"] = {
     "text": "Exploration: a real in-process MOSN whose clusters count all four breaker resources; 3 (12) rounds of 240 mixed requests per run (success, 5xx + retry policy, per-try / global timeouts, upstream close / RST / half response, unknown / empty / dead clusters, abandoned requests; 8 concurrent clients x HTTP/1, bolt, HTTP/2). A side goroutine samples all books every 2 ms (any negative value is a violation); after each round the request-type books (breaker requests / pending / retries, downstream and upstream request_active) must be 0 and upstream connection_active must equal the sockets the scripted upstreams hold; after the peers closed everything connection books must be 0. Threshold tests per protocol: with max_requests=3 exactly 3 requests are held in flight at the upstream (event-triggered, not timed): the resource must read 3, request 4 must be refused, and a new request must be admitted after release; with max_retries=1 a second request's retry must be refused while one retry is in flight and admitted afterwards.",
     "note": "Every cluster has its own upstream servers because MOSN keys connection pools by host address (clusters sharing an address share pools and books by design). Deliberately unsynchronised statistics are read only at quiescence; the sampler judges sign only.",
 }
+
+META["C02"] = {
+    "engine": "vworker",
+    "design_ref": "DESIGN.md §3 C02, §2.4",
+    "technique": "unique-token join of call/return events at the client boundary over a running proxy (the upstream echoes the request token into response header and body), under scrambled / late / duplicated / unknown-id replies, resets and retries; component-level monitor on the real client stream connection with the id counter driven across its wrap-around points (verif accessor)",
+    "text": "Exploration: 30 (160) waves per protocol of 2..64 concurrent requests over ONE downstream connection (bolt multiplexed client, HTTP/2 reference Transport; HTTP/1.1: 4 pooled connections) through a real MOSN sharing its upstream connections; per-request upstream plans: random delay 0..300 ms (scrambled reply order), reply after the 400 ms timeout on a connection that keeps being used, unknown id, duplicated reply, 5xx, close between replies, retry policy with per-try timeout; every response's header token and body token must equal the sent token, at most one response per call. c02-wrap: 600 (6000) cases on the real xprotocol client stream connection with the id counter pre-set to {0, wrap-k, wrap-3} (2^32 bolt/boltv2, 2^31 tars, 2^64 dubbo) while 1..40 requests are pending; permuted / duplicated / unknown-id reply sequences are dispatched; each stream must receive exactly its own frame once, ids of pending streams must be unique.",
+    "note": "Unique tokens make the history unambiguous (O(n log n) join, no search). MOSN-generated error replies carry no token and are not judged for correlation (C03 judges their count).",
+}
